@@ -6,6 +6,23 @@ props = [json.loads(l) for l in open(os.path.join(V, 'properties.jsonl'))]
 
 # id -> (technique, level text, level note, design ref)
 CLAIMED = {
+ 'C01': ("differential execution on a reference interpreter (hand-written, wasmparser only) over generated modules x host environments x call scripts (proptest)",
+         "Input and walrus's output are executed side by side on the harness's own interpreter with the same seeded host environment and the same call script (state carried over, visible table entries called at the end); instantiation outcome, results, trap classes, host-call traces and the state of every imported/exported memory, global and table must agree. Exploration over sampled programs and scripts; lane-wise SIMD arithmetic is covered syntactically by C03 instead.",
+         "The interpreter is the trusted base (it is used differentially, so a shared misreading of an operator that does not depend on an immediate cannot hide an immediate/index error); fuel and call-depth exhaustion are inconclusive.",
+         "DESIGN.md §4 C01, §3.3"),
+ 'C06': ("differential execution as C01 after the GC pass + validity + export-list equality + custom-section-root mode (proptest)",
+         "parse>gc>emit must not panic, must validate, must keep the export list and must behave identically on the reference interpreter; modules whose original instantiation fails are skipped as the statement tolerates. A second mode roots one arbitrary function through CustomSection::add_gc_roots and requires it and everything it refers to to survive unchanged at the index the section is told.",
+         "As C01.",
+         "DESIGN.md §4 C06"),
+ 'C09': ("differential testing of two builds (serial co-process vs parallel feature) under scoped rayon pools with seeded schedule perturbation (proptest)",
+         "Every generated module (1-400 functions, valid and with errors inside bodies) is parsed and emitted by the serial build and, in the parallel build, inside pools of 1,2,3,4,8,16 threads with repeats while yields/sleeps are injected from inside the parallel closures; decisions and bytes must be identical. Schedules are sampled, not enumerated: this is the stated limit of the technique for this property.",
+         "rayon's scheduler is not under harness control; a violation needing one exact interleaving can be missed.",
+         "DESIGN.md §4 C09, §6"),
+ 'C18': ("metamorphic differential execution: host-function-as-model vs replaced body; lock-step comparison for export replacement (proptest)",
+         "replace_imported_func: the original module run with the host function replaced by the closed-form model of the generated body must equal the edited module on all observables; the import list must shrink by exactly that entry; the id must be unchanged. replace_exported_func: calls to that export must return the model's results without side effects while all other calls equal the original run. Output must validate.",
+         "Replacement bodies come from a side-effect-free family with a closed-form model.",
+         "DESIGN.md §4 C18"),
+
  'C10': ("property-based generation of modules with synthesized DWARF (proptest) + LLVM-made corpus, gimli read-back against an independently derived offset map",
          "Well-formed DWARF 4/5 is synthesized for generated modules (one row per operator with a unique line number, one subprogram per function, single- and multi-function sequences, both low_pc conventions, v5 rows naming file 0, function counts and body sizes around LEB boundaries); after unchanged / GC / instruction-insertion round trips the output DWARF is read back with gimli and every row and subprogram range is checked against the true instruction map obtained from independent decodes and the verified bijection. clang/wasm-ld outputs committed under corpus/real cover real LLVM DWARF 4 and 5.",
          "Functions that have a content-identical unreferenced twin cannot be tracked and are not judged; multi-function sequences and the entry-start low_pc convention are recorded known findings.",
@@ -100,7 +117,7 @@ for p in props:
 
 m = {
  "version": 1,
- "setup_cmd": "cd /verif/harness && CARGO_NET_OFFLINE=true cargo build --release --offline",
+ "setup_cmd": "cd /verif/harness && CARGO_NET_OFFLINE=true cargo build --release --offline && CARGO_NET_OFFLINE=true cargo build --release --offline --features parallel --target-dir target-par",
  "hooks": {
    "guard": "walrus_verif",
    "enable": "no hooks are needed: every observation point is public API (on_parse, on_instr_loc, CustomSection, builder and collection APIs); the harness links /repo as a path dependency",
